@@ -1,11 +1,11 @@
 #!/usr/bin/env bash
 # usage: r4_now_di.sh <letter> <seedP> <n>   — targeted re-measurement with only the DI-INH / DI-ABA shapes (tools/di_new_shapes.py)
 L=$1; sp=$2; n=$3; WT=/tmp/eval4-$L
-cd $WT && git checkout -q -- . && git clean -fdq && git apply /tmp/seed4-$sp/SEED$n/patch.diff || exit 2
+cd $WT && git checkout -q -- . && git clean -fdq && git apply /verif/seeded/$sp-r4s$n/patch.diff || exit 2
 out=/verif/work/evalseeds/r4-now-$sp-$n-C04.json
 t0=$(date +%s)
-log=$(cd /verif && VERIF_E2E_REPO=$WT VERIF_E2E_NS=-r4$L python3 tools/di_new_shapes.py 2>&1)
-cd $WT && git checkout -q -- . && git clean -fdq; git -C /verif checkout -- evidence
+log=$(cd /verif && VERIF_EVIDENCE_DIR=/verif/work/seed-evidence VERIF_E2E_REPO=$WT VERIF_E2E_NS=-r4$L python3 tools/di_new_shapes.py 2>&1)
+cd $WT && git checkout -q -- . && git clean -fdq
 python3 - "$out" "$sp" "$n" "$(( $(date +%s) - t0 ))" <<PY
 import json, sys, re
 log = """$(echo "$log" | grep -E '^(VIOLATION|RESULT|  detail|MACHINERY)' | head -30 | sed 's/"""/"/g')"""
